@@ -13,8 +13,11 @@ import CdsVerif.Algo.FreeList.Model
 import CdsVerif.Algo.TaggedFreeList.Model
 import CdsVerif.Algo.ReentrantSpin.Model
 import CdsVerif.Algo.HP.Replay
+import CdsVerif.Algo.DHP.Replay
 import CdsVerif.Algo.RCU.Model
 import CdsVerif.Algo.Michael.Model
+import CdsVerif.Algo.Iterable.Model
+import CdsVerif.Algo.Striped.Replay
 import CdsVerif.Algo.MSPQ.Model
 import CdsVerif.Algo.Segmented.Model
 open CdsVerif.Driver
@@ -130,12 +133,33 @@ def main (args : List String) : IO UInt32 := do
     replayLoop stdin CdsVerif.Algo.HP.Replay.modelR (fun cfg => CdsVerif.Algo.HP.Replay.initCfg cfg)
       CdsVerif.Algo.HP.Replay.relevant CdsVerif.Algo.HP.Replay.safeB none
     return 0
+  | ["replay", "dhp"] =>
+    -- configuration from the header words `init=` `B=` `T=` `RB=` `cells=` (harness/clients/smr.cpp --static 1, variants dhp / dhp_many,
+    -- trace rewritten by tools/dhp_pre.py)
+    replayLoop stdin CdsVerif.Algo.DHP.Replay.modelR (fun cfg => CdsVerif.Algo.DHP.Replay.initCfg cfg)
+      CdsVerif.Algo.DHP.Replay.relevant CdsVerif.Algo.DHP.Replay.safeB none
+    return 0
   | ["replay", "segq"] =>
     -- harness variant `i_hp_named` of the `segmented` client, trace rewritten by tools/segq_pre.py (permutations folded into the
     -- CALL lines); initial state: header words `qf=` and `warm=` (the warm-up is run on the machine)
     replayLoop stdin CdsVerif.Algo.Segmented.model (fun cfg => CdsVerif.Algo.Segmented.initCfg cfg)
       (fun loc => loc == "segHead" || loc == "segTail" || loc == "segLock"
         || (loc.startsWith "s" && loc.any (· == '.') && !(loc.any (· == '+')))) CdsVerif.Algo.Segmented.checkB none
+    return 0
+  | ["replay", "striped"] =>
+    -- StripedSet, striping / refinable mutex policies (harness client `striped`, hidden variants tie_striping / tie_refinable);
+    -- configuration from the header words `policy=` `cap=` `num=` `den=` `hmul=`
+    replayLoop stdin CdsVerif.Algo.Striped.modelR (fun cfg => CdsVerif.Algo.Striped.initCfg cfg)
+      CdsVerif.Algo.Striped.relevant CdsVerif.Algo.Striped.okB none
+    return 0
+  | ["replay", "refinable"] =>
+    replayLoop stdin CdsVerif.Algo.Striped.modelR (fun cfg => CdsVerif.Algo.Striped.initCfg cfg)
+      CdsVerif.Algo.Striped.relevant CdsVerif.Algo.Striped.okB none
+    return 0
+  | ["replay", "iterable"] =>
+    -- IterableList + iterator (C19); initial state from the header word `prefill=k1,k2,…`; trace rewritten by tools/iterable_pre.py
+    replayLoop stdin CdsVerif.Algo.Iterable.model (fun cfg => CdsVerif.Algo.Iterable.initCfg cfg)
+      CdsVerif.Algo.Iterable.relevant (fun _ => true) none
     return 0
   | ["replay", "ring"] =>
     -- initial state from the header words `cap=<capacity()>` and (optional) `rot=<warm-up rotations>`
